@@ -96,7 +96,10 @@ type SimWriteCloser struct {
 	// returns a short count and ErrInjectedWrite, as does every later write.
 	FailAt int
 	// FailClose: Close returns ErrInjectedClose (after releasing the resource).
-	FailClose       bool
+	FailClose bool
+	// Err, when set, is returned by the failing Write / Close instead of ErrInjectedWrite /
+	// ErrInjectedClose (an errno as a real file, pipe or socket reports it).
+	Err             error
 	Buf             []byte
 	Writes          int
 	Closes          int
@@ -127,6 +130,9 @@ func (w *SimWriteCloser) Write(p []byte) (int, error) {
 			if len(w.Log) < 64 {
 				w.Log = append(w.Log, fmt.Sprintf("W%d!%d", len(p), room))
 			}
+			if w.Err != nil {
+				return room, w.Err
+			}
 			return room, ErrInjectedWrite
 		}
 	}
@@ -146,6 +152,9 @@ func (w *SimWriteCloser) Close() error {
 	}
 	if w.FailClose {
 		w.FiredClose = true
+		if w.Err != nil {
+			return w.Err
+		}
 		return ErrInjectedClose
 	}
 	return nil
